@@ -2,7 +2,7 @@
    (incremental-font-transfer/src/patchmap.rs), hand-written from the source statement by statement.
      (f1) add_intersecting_format1_patches: intersect_format1_glyph_map_inner + intersect_format1_feature_map
           (record walk for FeatureSet::All / FeatureSet::Set, the up-front entry_records_size check, the u16 index
-          arithmetic index = i + cumulative, byte_index = index * field_width * 2, mapped = first_new + i, the
+          arithmetic index = i + cumulative, byte_index = index * field_width * 2, mapped = first_new.checked_add(i), the
           slice entry_map_data[byte_index..], EntryMapRecord::read, merge_intersecting_entries, the applied bitmap)
      (f2) decode_format2_entries / decode_format2_entry: the entry loop over the encoded entries
    No proofs in this file.  u16 arithmetic under overflow-checks and slicing are explicit panic outcomes. *)
@@ -63,44 +63,35 @@ Definition entry_records_size (w : Z) (recs : list (Z * Z * Z)) : Z :=
 
 Inductive f1step := StOk (entries : list Z) | StErr | StPanic.
 
-(* the `for i in 0..entry_count` loop over one feature record; i counts up, n = iterations left *)
+(* the `for i in 0..entry_count` loop over one feature record; i counts up, n = iterations left.
+   index and byte_index are usize (u16 * u16 * 2 cannot overflow it); first_new + i is a checked_add *)
 Fixpoint f1_record_loop (n : nat) (i : Z) (w maxe maxg cumulative first_new : Z) (data : list Z)
     (entries : list Z) : f1step :=
   match n with
   | O => StOk entries
   | S n' =>
-      match add_u16 i cumulative with                                   (* index = i + cumulative *)
-      | None => StPanic
-      | Some index =>
-          match mul_u16 index w with                                     (* index * field_width *)
-          | None => StPanic
-          | Some iw =>
-              match mul_u16 iw 2 with                                    (* ... * 2 *)
-              | None => StPanic
-              | Some byte_index =>
-                  if ilen data <? byte_index then StPanic                (* entry_map_data[byte_index..] *)
-                  else
-                    match add_u16 first_new i with                       (* mapped = first_new + i *)
-                    | None => StPanic
-                    | Some mapped =>
-                        match read_w w data byte_index, read_w w data (byte_index + w) with   (* EntryMapRecord::read? *)
-                        | Some first, Some last =>
-                            let entries' :=
-                              if (last <? first) || (maxg <? first) || (maxg <? last) || (mapped <=? maxg) || (maxe <? mapped)
-                              then entries
-                              else if set_has_in first last entries then set_insert mapped entries   (* merge_intersecting_entries *)
-                              else entries in
-                            f1_record_loop n' (i + 1) w maxe maxg cumulative first_new data entries'
-                        | _, _ => StErr
-                        end
-                    end
-              end
-          end
-      end
+      let index := i + cumulative in                                    (* i as usize + cumulative *)
+      let byte_index := index * w * 2 in                                 (* index * field_width as usize * 2 *)
+      if ilen data <? byte_index then StPanic                            (* entry_map_data[byte_index..] *)
+      else
+        match add_u16 first_new i with                                   (* first_new.checked_add(i) *)
+        | None => f1_record_loop n' (i + 1) w maxe maxg cumulative first_new data entries   (* continue *)
+        | Some mapped =>
+            match read_w w data byte_index, read_w w data (byte_index + w) with   (* EntryMapRecord::read? *)
+            | Some first, Some last =>
+                let entries' :=
+                  if (last <? first) || (maxg <? first) || (maxg <? last) || (mapped <=? maxg) || (maxe <? mapped)
+                  then entries
+                  else if set_has_in first last entries then set_insert mapped entries   (* merge_intersecting_entries *)
+                  else entries in
+                f1_record_loop n' (i + 1) w maxe maxg cumulative first_new data entries'
+            | _, _ => StErr
+            end
+        end
   end.
 
 (* the record walk.  tags = Some sorted feature tags (FeatureSet::Set) | None (FeatureSet::All);
-   fuel bounds the number of loop turns (each turn consumes a tag or a record) *)
+   fuel bounds the number of loop turns (each turn consumes a tag or a record); cumulative is a usize *)
 Fixpoint f1_walk (fuel : nat) (w maxe maxg : Z) (data : list Z) (tags : option (list Z)) (recs : list (Z * Z * Z))
     (cumulative : Z) (largest : option Z) (entries : list Z) : f1step :=
   match fuel with
@@ -109,11 +100,7 @@ Fixpoint f1_walk (fuel : nat) (w maxe maxg : Z) (data : list Z) (tags : option (
       let process (r : Z * Z * Z) (tags' : option (list Z)) (recs' : list (Z * Z * Z)) (largest' : option Z) :=
         let '(_, first_new, count) := r in
         match f1_record_loop (Z.to_nat count) 0 w maxe maxg cumulative first_new data entries with
-        | StOk entries' =>
-            match add_u16 cumulative count with                          (* cumulative += entry_count *)
-            | None => StPanic
-            | Some c' => f1_walk fuel' w maxe maxg data tags' recs' c' largest' entries'
-            end
+        | StOk entries' => f1_walk fuel' w maxe maxg data tags' recs' (cumulative + count) largest' entries'
         | other => other
         end in
       match tags with
@@ -121,11 +108,7 @@ Fixpoint f1_walk (fuel : nat) (w maxe maxg : Z) (data : list Z) (tags : option (
           match ts, recs with
           | t :: ts', r :: recs' =>
               let '(rtag, _, count) := r in
-              if rtag <? t then
-                match add_u16 cumulative count with
-                | None => StPanic
-                | Some c' => f1_walk fuel' w maxe maxg data tags recs' c' largest entries
-                end
+              if rtag <? t then f1_walk fuel' w maxe maxg data tags recs' (cumulative + count) largest entries
               else if (match largest with Some l => t <=? l | None => false end) then
                 f1_walk fuel' w maxe maxg data (Some ts') recs cumulative largest entries
               else if t <? rtag then
@@ -139,10 +122,7 @@ Fixpoint f1_walk (fuel : nat) (w maxe maxg : Z) (data : list Z) (tags : option (
           | r :: recs' =>
               let '(rtag, _, count) := r in
               if (match largest with Some l => rtag <=? l | None => false end) then
-                match add_u16 cumulative count with
-                | None => StPanic
-                | Some c' => f1_walk fuel' w maxe maxg data None recs' c' largest entries
-                end
+                f1_walk fuel' w maxe maxg data None recs' (cumulative + count) largest entries
               else process r None recs' (Some rtag)
           end
       end
